@@ -710,6 +710,28 @@ func (sc *specCtx) call(x *ast.CallExpr) (*val, error) {
 		}
 		return nil, fmt.Errorf("unsupported conversion to %s", t)
 	}
+	if se, ok := x.Fun.(*ast.SelectorExpr); ok {
+		// pkg.Func(args): exported spec / pure function of an imported (or the same) package
+		if pid, ok := se.X.(*ast.Ident); ok {
+			if p := sc.pkg(); p != nil {
+				cands := append([]*types.Package{p}, p.Imports()...)
+				for _, imp := range cands {
+					if imp.Name() != pid.Name {
+						continue
+					}
+					if obj, ok := imp.Scope().Lookup(se.Sel.Name).(*types.Func); ok {
+						if fn := g.w.prog.FuncValue(obj); fn != nil {
+							as, err := evArgs()
+							if err != nil {
+								return nil, err
+							}
+							return sc.fc.pureCall(fn, as, sc.h, sc.guard), nil
+						}
+					}
+				}
+			}
+		}
+	}
 	id, _ := x.Fun.(*ast.Ident)
 	if id == nil {
 		return nil, fmt.Errorf("unsupported call in spec")
